@@ -188,7 +188,11 @@ pub struct Scratch {
 
 impl Scratch {
     pub fn new(tag: &str) -> Scratch {
-        let base = if Path::new("/dev/shm").is_dir() {
+        // workers live inside their parent's scratch directory, which the parent removes
+        // when the run ends (a killed worker cannot clean up after itself)
+        let base = if let Some(b) = std::env::var_os("VERIF_SCRATCH_BASE").map(PathBuf::from).filter(|b| b.is_dir()) {
+            b
+        } else if Path::new("/dev/shm").is_dir() {
             PathBuf::from("/dev/shm")
         } else {
             std::env::temp_dir()
